@@ -287,7 +287,15 @@ def run(rep, tier):
     for w, ref in sorted(CONTAINERS.items()):
         x = ex[w]
         roles = {}
-        for c in x.containers.values():
+        used_names = set()
+        for e in x.equations:
+            used_names |= {a_[1:-1] for a_ in eq.atoms(e['rhs'], set()) if a_.startswith('{')}
+        for c in list(x.containers.values()):
+            if not c['adds'] and c['name'] not in used_names:
+                rep.note('%s: container %s is never filled nor used in an equation (ignored)' % (w, c['name']))
+                continue
+            if sum(1 for c2 in x.containers.values() if c2['name'] == c['name'] and (c2['adds'] or c2['name'] in used_names)) > 1:
+                raise AnalysisBroken('%s: two live containers are called %s' % (w, c['name']))
             sig = sorted(canon_term(a['what']) for a in c['adds'])
             cand = [role for role, r in ref.items() if sorted(a['term'] for a in r['adds']) == sig and role not in roles.values()]
             # disambiguate equal add sets (ALLT / SPONT) by the literal guards
@@ -303,7 +311,7 @@ def run(rep, tier):
                 roles[c['name']] = cand[0]
         roles_by_writer[w] = roles
         for role, r in sorted(ref.items()):
-            cs = [c for c in x.containers.values() if roles.get(c['name']) == role]
+            cs = [c for c in x.containers.values() if roles.get(c['name']) == role and (c['adds'] or c['name'] in used_names)]
             if not cs:
                 raise AnalysisBroken('%s: no container plays the role %s' % (w, role))
             c = cs[0]
@@ -345,7 +353,7 @@ def run(rep, tier):
             for ra in r['adds']:
                 if ra['term'] not in seen:
                     rep.fail('R18.4', '%s|%s|missing %s' % (w, role, ra['term']), site, 'container %s (%s) never receives the term %s of the step algorithm' % (c['name'], role, ra['term']))
-        extra = [c['name'] for c in x.containers.values() if c['name'] not in roles]
+        extra = [c['name'] for c in x.containers.values() if c['name'] not in roles and (c['adds'] or c['name'] in used_names)]
         if extra:
             raise AnalysisBroken('%s: containers %s have no role in the reference' % (w, extra))
     # default completion via the `initial` attribute (same defect as C05 R05.1, seen from the equations)
